@@ -152,6 +152,9 @@ def spec(c, r):
         if r["lopt"] != 0.0 or (finite and r["out"] != [int(v) for v in c["y"]]):
             return "fewer than five valid cells must be returned unchanged with lambda 0"
         return None
+    for a in r.get("alts") or []:
+        if a["out"] != r["out"] or a["lopt"] != r["lopt"]:
+            return ("the result depends on the nodata placeholder: with %s in the missing cells lambda=%r band=%r" % (a["placeholder"], a["lopt"], a["out"][:30]))
     grid = [pow(10.0, l) for l in c["llas"]]
     if r["lopt"] not in grid:
         return "reported lambda %r is not one of 10**srange" % r["lopt"]
@@ -192,7 +195,7 @@ def run(ctx):
         ctx.violation("implementation run failed", dict(kind="impl-crash", log=log[-3000:]), found_input=False)
         return
     spec_fail, coq, meta = [], [], []
-    dist = dict(solves_observed=0, wcv=0, wcvp=0, robust=0, degenerate=0, with_gaps=0, nonfinite_cells=0, passthrough=0, accessor_pixels=0, grid_sizes={})
+    dist = dict(placeholder_variants=0, solves_observed=0, wcv=0, wcvp=0, robust=0, degenerate=0, with_gaps=0, nonfinite_cells=0, passthrough=0, accessor_pixels=0, grid_sizes={})
     for c, r in zip(cases, res["kernels"]):
         m = dict(kind=c["kind"], n=c["n"], nodata=c["nodata"], p=c.get("p"), robust=c["robust"], srange=[c["llas"][0], c["llas"][-1], len(c["llas"])],
                  y=c["y"] if c["n"] <= 30 else None, lopt=r.get("lopt"), out=r.get("out") if c["n"] <= 30 else None)
@@ -201,6 +204,7 @@ def run(ctx):
             continue
         dist[c["kind"]] += 1
         dist["robust"] += 1 if c["robust"] else 0
+        dist["placeholder_variants"] += len(r.get("alts") or [])
         dist["solves_observed"] += 1 if (r.get("solves") or {}).get("same_as_compiled") else 0
         dist["degenerate"] += 1 if c["degenerate"] else 0
         dist["with_gaps"] += 1 if c["miss"] else 0
